@@ -69,3 +69,32 @@ Example C14_nonvacuous :
   (exists cx nv, g_pc ex_run14 0 = PW_I2 cx 0 0 nv) /\ lock_of (@tab_at nat nat 2 (fun _ => 1) ex_run14 0) 0 = Some 0.
 Proof. split; [do 2 eexists; vm_compute; reflexivity | vm_compute; reflexivity]. Qed.
 Print Assumptions C14_nonvacuous.
+
+(* ---------------------------------------------------------------------------
+   The static tie to the text of the cache layer.  gen/SrcFacts.v is produced on
+   every run by a translator (harness/srcfacts/skeleton.go) from xsync_map.go and
+   xsync_mapof.go: per public method, how often a syntactic path can perform each
+   kind of primitive outside a closure run by the map, and how often such a closure
+   can invoke a user function.  proofs/Skel.v ties the model programs to it in both
+   directions; a change of the call structure of a method breaks these statements. *)
+From CacheV.proofs Require SkelDefs Skel.
+From CacheV.gen Require SrcFacts.
+From Coq Require String.
+
+(* the settings are reached through their atomic.Value only: the translator recognises c.defaultExpiration.Load/Store
+   and c.evictedCallback.Load/Store, and the model's ReadDflt / ReadCb / WriteDflt / WriteCb match them one for one *)
+Theorem C14_settings_through_atomic_value :
+  SkelDefs.unattained SrcFacts.budgets_map (CacheV.Ops.prog_cache Z.eq_dec 0%Z) = [] /\
+  SkelDefs.unattained SrcFacts.budgets_mapof (CacheV.Ops.prog_cacheof Z.eq_dec 0%Z) = [].
+Proof. split; [exact Skel.cache_budget_attained|exact Skel.cacheof_budget_attained]. Qed.
+Print Assumptions C14_settings_through_atomic_value.
+
+Theorem C14_model_reads_settings_where_source_does :
+  forall (K V : Type) (eqd : forall a b : K, {a = b} + {a <> b}) (zero : V) (o : CacheV.Ops.cop K V),
+    SkelDefs.is_call o ->
+    SkelDefs.within SrcFacts.budgets_map (CacheV.Ops.prog_cache eqd zero) o /\
+    SkelDefs.within SrcFacts.budgets_mapof (CacheV.Ops.prog_cacheof eqd zero) o.
+Proof.
+  intros K V eqd zero o H. split; [exact (Skel.cache_within_budget eqd zero o H)|exact (Skel.cacheof_within_budget eqd zero o H)].
+Qed.
+Print Assumptions C14_model_reads_settings_where_source_does.
